@@ -316,6 +316,8 @@ def encode_number(
     else:
         min_val = 0
         max_val = (1 << bit_length) - 2  # reserve max for "not available"
+        if bit_length == 1:
+            max_val = 1  # a single bit has no room for a "not available" pattern
 
     if not (min_val <= number_int <= max_val):
         raise ValueError(f"Value {value} out of range after scaling")
